@@ -24,12 +24,13 @@ Definition run_expmv_pass (a : sx) : sx :=
 (* 122: initial state and derived constants. arg: (t ncv vsize) -> (t_out sgn tau0 ncv0 ncv_max) *)
 Definition run_expmv_init (a : sx) : sx :=
   let t := dQ (dNth a 0) in
-  L [sQ (expmv_t_out0 t); sQ (expmv_sgn t (expmv_t_out0 t)); sQ (expmv_tau0 (expmv_t_out0 t)); sQ (expmv_ncv0 (dQ (dNth a 1)) (expmv_ncv_max (dQ (dNth a 2)))); sQ (expmv_ncv_max (dQ (dNth a 2)))].
+  L [sQ (expmv_t_out0 t); sQ (expmv_sgn t (expmv_t_out0 t)); sQ (expmv_tau0 (expmv_t_out0 t)); sQ (expmv_ncv0 (dQ (dNth a 1))); sQ (expmv_ncv_max (expmv_ncv0 (dQ (dNth a 1))) (dQ (dNth a 2)))].
 
 (* 123: next Krylov size. arg: (ncv_max m ncv_new) *)
 Definition run_expmv_ncv (a : sx) : sx := sQ (expmv_ncv_next (dQ (dNth a 0)) (dQ (dNth a 1)) (dQ (dNth a 2))).
 
-(* 124: dimensions used by eigs / lin_solver. arg: (happy lenV) *)
+(* 124: dimensions used by eigs / lin_solver. arg: (happy lenV supp) *)
 Definition run_krylov_dims (a : sx) : sx :=
-  let h := dB (dNth a 0) in let n := inject_Z (dZ (dNth a 1)) in
-  L [sQ (eigs_kept (eigs_m h n)); sQ (eigs_T_dim (eigs_m h n)); sQ (lin_solver_kept (lin_solver_m h n)); sQ (lin_solver_T_rows (lin_solver_m h n)); sQ (lin_solver_T_cols (lin_solver_m h n))].
+  let h := dB (dNth a 0) in let n := inject_Z (dZ (dNth a 1)) in let sp := inject_Z (dZ (dNth a 2)) in
+  let me := eigs_m_cap (eigs_m h n) sp in let ml := lin_solver_m_cap (lin_solver_m h n) sp in
+  L [sQ (eigs_kept me); sQ (eigs_T_dim me); sQ (lin_solver_kept ml); sQ (lin_solver_T_rows ml); sQ (lin_solver_T_cols ml)].
